@@ -196,10 +196,11 @@ theorem C13_dq_var (se : SubstEnv) (p : Str) (ds : List Delivery) (f : Nat)
       simp only [doExpansion.applyUpdates, List.foldl_nil, expandBraceRange_id p _ hout n4]
   · have hpe := word_no p hw '=' (by decide)
     have hpa : ArgTok ([], p) := by
-      refine Or.inr ⟨?_, ?_, ?_, ?_, ?_⟩
+      refine Or.inr ⟨?_, ?_, ?_, ?_⟩
       · intro e; exact word_no p hw '|' (by decide) '|' (by have e' : p = _ := e; rw [e']; simp) rfl
-      · intro e; exact word_no p hw '<' (by decide) '<' (by have e' : p = _ := e; rw [e']; simp) rfl
-      · intro e; exact word_no p hw '<' (by decide) '<' (by have e' : p = _ := e; rw [e']; simp) rfl
+      · intro e
+        have e' : p.head? = some '<' := e
+        exact word_no p hw '<' (by decide) '<' (List.mem_of_mem_head? e') rfl
       · intro e; exact word_no p hw '&' (by decide) '&' (by have e' : p = _ := e; rw [e']; simp) rfl
       · exact word_no p hw '>' (by decide)
     have hq : ∀ t ∈ ds.map (tokOut se), ArgTok t := fun t ht => Or.inl (hout t ht)
